@@ -46,6 +46,9 @@ type World struct {
 	dirAtom   *Term
 	busyCount int
 
+	fs            *FS
+	logFile       *FileObj
+	tmpFile       *FileObj
 	stdinText     Value
 	stdinPlan     Value
 	stdinPiped    Value
@@ -77,7 +80,12 @@ func NewWorld(ex *Exec) *World {
 		"syscall.Close":           func(ex *Exec, c *callCtx) Value { return NilRef() },
 		"os.IsNotExist":           w.mIsNotExist,
 		"path/filepath.Join":      w.mJoin,
-		"path/filepath.Dir":       func(ex *Exec, c *callCtx) Value { return strUF1("pathdir", c.args[0]) },
+		"path/filepath.Dir": func(ex *Exec, c *callCtx) Value {
+			if t := c.args[0].(StrV).T; t.op == "uf:pathjoin" {
+				return StrV{T: t.args[0]} // Dir(Join(a, leaf)) = a
+			}
+			return strUF1("pathdir", c.args[0])
+		},
 		"path/filepath.Base":      func(ex *Exec, c *callCtx) Value { return strUF1("pathbase", c.args[0]) },
 		ergoPath + ".ensureFileExists": w.mEnsureFile,
 		ergoPath + ".ergoDir":     w.mErgoDir,
@@ -110,18 +118,28 @@ func strUF1(name string, v Value) Value {
 
 func (w *World) lookup(name string) modelFn {
 	if !w.active {
-		// intrinsic that switches the world on is always visible
+		// intrinsics that switch the world on are always visible
 		if name == ergoPath+".zzWorldInit" {
 			return w.models[name]
+		}
+		if name == ergoPath+".zzFSInit" {
+			return w.mFSInit
 		}
 		return nil
 	}
 	return w.models[name]
 }
 
-func (w *World) lookupInvoke(t types.Type, method string) modelFn { return nil }
+func (w *World) lookupInvoke(t types.Type, method string) modelFn { return w.lookupInvokeFS(t, method) }
 
-func (w *World) bytesTrimSpace(ex *Exec, c *callCtx) Value { panic(unsupported("bytes.TrimSpace")) }
+func (w *World) bytesTrimSpace(ex *Exec, c *callCtx) Value {
+	if r, ok := c.args[0].(RefV); ok && len(r.Alts) > 0 {
+		if _, isLine := r.Alts[0].Tgt.(LineT); isLine {
+			return r // a line object: blankness is a flag, trimming keeps the object
+		}
+	}
+	panic(unsupported("bytes.TrimSpace"))
+}
 
 // ---- deep copy of a symbolic heap structure ----
 
